@@ -65,6 +65,7 @@ func init() {
 				{Scenario: "c11_burst", Params: mustJSON(BurstParams{Membership: "static", MaxN: n}), Bound: b, Shards: 8},
 				{Scenario: "c11_burst", Params: mustJSON(BurstParams{Membership: "dynamic", MaxN: 1, Hold: true}), Bound: b, Shards: 2},
 				{Scenario: "c11_burst", Params: mustJSON(BurstParams{Membership: "static", MaxN: 2, Tight: true}), Bound: 1, Shards: 8, Note: "two notifications at the same instant (bus + GET /rebalance), all single deviations"},
+				{Scenario: "c10_register", Params: mustJSON(struct{}{}), Bound: 0, Note: "leader-assigned membership: a numbering that repeats the one in effect (e.g. from the new leader after a fail-over) is not announced, so it causes no interruption"},
 				{Scenario: "c11_burst", Params: mustJSON(BurstParams{Membership: "static", MaxN: 1, Mitigation: true}), Bound: 0, Shards: 2, Note: "events waiting at the rollback-mitigation gate when the rebalance closes the stream"},
 				{Scenario: "c11_burst", Params: mustJSON(BurstParams{Membership: "dynamic", MaxN: 1, Mitigation: true}), Bound: 0, Shards: 2, Note: "events waiting at the rollback-mitigation gate when the rebalance closes the stream"},
 				{Scenario: "c11_burst", Params: mustJSON(BurstParams{Membership: "static", MaxN: 1, CloseFault: true}), Bound: 0, Shards: 2, Note: "the reply to one close-stream request of the rebalance is lost"},
@@ -348,7 +349,20 @@ func burstMain(p BurstParams) {
 			}
 		}
 		if cycles == bursts+1 && len(ares) >= 1 && len(brss) >= 2 && brss[1]-ares[0] < 1000 && brss[1] >= ares[0] {
-			why = " [second Rebalance() queued on the rebalance lock behind the first rebalance of the session]"
+			direct := false
+			for _, nt := range ns {
+				if nt.src == "api-rebalance" {
+					direct = true
+				}
+			}
+			if direct {
+				// GET /rebalance calls Rebalance() directly, concurrently with the bus listener
+				why = " [second Rebalance() queued on the rebalance lock behind the first rebalance of the session]"
+			} else {
+				// notifications that all came over the bus are handed to the listener one at a time (transactional
+				// subscription): two of them inside Rebalance() at once must not happen
+				why = " [a second Rebalance() was queued on the rebalance lock although every notification came over the bus, whose listener runs one notification at a time]"
+			}
 		}
 		if why == "" && cycles == bursts+1 {
 			// a cycle that no notification started and that does not follow a re-open immediately: it was started
